@@ -651,7 +651,12 @@ fn gen_scn(g: &mut Rng, pool: &[Pfx]) -> Scn {
             } else { (addrs[g.below(addrs.len() as u64) as usize], 65001 + g.below(3) as u32) };
             ops.push(Op::Conn(a, asn));
             nconn += 1;
-        } else if r < 75 { ops.push(Op::Upd(g.below(nconn as u64) as usize, gen_upd(g, pool))); }
+        } else if r < 75 {
+            // one UPDATE in six is the previous UPDATE of the scenario again, byte for byte on the same connection (a peer
+            // may repeat itself: every UPDATE yields its route events, whatever came before)
+            let prev = ops.iter().rev().find_map(|o| if let Op::Upd(k, u) = o { Some((*k, u.clone())) } else { None });
+            match prev { Some((k, u)) if g.chance(1, 6) => ops.push(Op::Upd(k, u)), _ => ops.push(Op::Upd(g.below(nconn as u64) as usize, gen_upd(g, pool))) }
+        }
         else if r < 80 { ops.push(Op::Notif(g.below(nconn as u64) as usize)); }
         else if r < 90 { ops.push(Op::Fin(g.below(nconn as u64) as usize)); }
         else if r < 95 { ops.push(Op::Rst(g.below(nconn as u64) as usize)); }
